@@ -26,6 +26,7 @@ EXPLANATION = (
     "entry that stays in progress; R4 worker coroutines are created only from the CommandRunWorker branch of process_command; "
     "R5 drains pop the queue only under the capacity test."
 )
+TECHNIQUE = 'static analysis: CFG guard dominance (capacity test) + who-may-create + finite-domain AST evaluation of the worker-id expression'
 TRUSTED = ["CPython ast", "the control loop applies reducer results sequentially (C11)"]
 CL = "workflows.runtime.control_loop"
 PKG_PREFIX = "workflows"
